@@ -301,6 +301,9 @@ def run(ctx):
     ctx.coq_file(os.path.join(C.COQ, "props", "C09.v"))
     bad = C.hygiene()
     ctx.obligation("hygiene: no Admitted/Axiom/Parameter/... in coq/", not bad, "; ".join(bad))
+    if not ctx.quick():
+        from harness import dsedit2_lib as _L
+        _L.coqchk(ctx, ["Pq.Proofs.EditHistory"])
     C.use_shadow()
     C.pqref()
     import multiprocessing as mp
